@@ -572,3 +572,22 @@ fn socks_to_io_error(err: socks5_client::Error) -> io::Error {
         }
     }
 }
+
+/// Verification door: the private credential derivations, unchanged
+#[cfg(feature = "verif")]
+pub(crate) fn verif_make_auth(
+    auth: authentication::Source<'static>,
+) -> Result<socks5_client::Authentication<'static>, String> {
+    make_auth(auth).map(socks5_client::Authentication::into_owned)
+}
+
+#[cfg(feature = "verif")]
+pub(crate) fn verif_make_extended_auth(
+    auth: authentication::Source<'static>,
+    tls_domain: &str,
+    client_address: &IpAddr,
+    user_agent: Option<&str>,
+) -> Result<socks5_client::Authentication<'static>, String> {
+    make_extended_auth(auth, tls_domain, client_address, user_agent)
+        .map(socks5_client::Authentication::into_owned)
+}
